@@ -807,6 +807,7 @@ def run_session(world, model, sdesc, armed, index, logger=None, gen_cb=None, che
         # could miss)
         sess.c07_expected = oracles.c07_expected(sess)
     sess.pre_blocks = {b.uuid for b in m.byte_blocks}
+    world.last_pre_blocks = sess.pre_blocks  # (read by observe: fresh padding is a block made by this session)
     # first block of every byte interval (the one that keeps the original
     # interval when the intervals are split per block)
     sess.pre_first = {str(min(bi.blocks, key=lambda b: (b.offset, b.size)).uuid) for bi in m.byte_intervals if bi.blocks}
